@@ -410,13 +410,14 @@ Definition holder_key (hosts : smap resource) (h : string) : string :=
 Definition problems_no_host (hosts res : smap resource) : list (string * problem) :=
   filter_map (fun kv =>
     let k := fst kv in
+    let u := m_uid (res_meta (snd kv)) in
     match snd kv with
     | RIng c => if negb (any_true (ic_valid_hosts c))
-                then Some (k, mkP k false rejected "All hosts are taken by other resources") else None
+                then Some (k, mkP k u false rejected "All hosts are taken by other resources") else None
     | RVS c => if negb (String.eqb (holder_key hosts (v_host (vc_vs c))) k)
-               then Some (k, mkP k false rejected "Host is taken by another resource") else None
+               then Some (k, mkP k u false rejected "Host is taken by another resource") else None
     | RTS c => if negb (String.eqb (holder_key hosts (t_host (tc_ts c))) k)
-               then Some (k, mkP k false rejected "Host is taken by another resource") else None
+               then Some (k, mkP k u false rejected "Host is taken by another resource") else None
     end) res.
 
 Definition problems_orphan_minions (hosts : smap resource) (is_ : smap ingress) : list (string * problem) :=
@@ -427,7 +428,7 @@ Definition problems_orphan_minions (hosts : smap resource) (is_ : smap ingress) 
                 | Some (RIng c) => ic_master c
                 | _ => false end in
       if ok then None
-      else Some (ing_rkey i, mkP (ing_rkey i) false "NoIngressMasterFound" "Ingress master is invalid or doesn't exist")
+      else Some (ing_rkey i, mkP (ing_rkey i) (m_uid (i_meta i)) false "NoIngressMasterFound" "Ingress master is invalid or doesn't exist")
     else None) is_.
 
 Definition problems_vsrs (hosts : smap resource) (rs : smap vsroute) : list (string * problem) :=
@@ -438,9 +439,9 @@ Definition problems_vsrs (hosts : smap resource) (rs : smap vsroute) : list (str
         if existsb (fun x => String.eqb (m_ns (r_meta x)) (m_ns (r_meta r)) &&
                              String.eqb (m_name (r_meta x)) (m_name (r_meta r))) (vc_vsrs c)
         then None
-        else Some (vsr_pkey r, mkP (vsr_pkey r) false "Ignored"
+        else Some (vsr_pkey r, mkP (vsr_pkey r) (m_uid (r_meta r)) false "Ignored"
                                    ("VirtualServer " ++ mkey (v_meta (vc_vs c)) ++ " ignores VirtualServerRoute"))
-    | _ => Some (vsr_pkey r, mkP (vsr_pkey r) false "NoVirtualServerFound" "VirtualServer is invalid or doesn't exist")
+    | _ => Some (vsr_pkey r, mkP (vsr_pkey r) (m_uid (r_meta r)) false "NoVirtualServerFound" "VirtualServer is invalid or doesn't exist")
     end) rs.
 
 Definition problem_delta (new old : smap problem) : list problem :=
@@ -513,10 +514,10 @@ Definition listener_problems (lh : smap ts_cfg) (cfgs : list ts_cfg) : list (str
     let k := ts_rkey t in
     let hostdesc := if String.eqb (t_host t) "" then "empty host" else t_host t in
     match lookup (lkey (t_lname t) (t_host t)) lh with
-    | None => Some (k, mkP k false rejected ("Listener " ++ t_lname t ++ " doesn't exist"))
+    | None => Some (k, mkP k (m_uid (t_meta t)) false rejected ("Listener " ++ t_lname t ++ " doesn't exist"))
     | Some holder =>
         if negb (ts_is_equal c holder)
-        then Some (k, mkP k false rejected ("Listener " ++ t_lname t ++ " with host " ++ hostdesc ++ " is taken by another resource"))
+        then Some (k, mkP k (m_uid (t_meta t)) false rejected ("Listener " ++ t_lname t ++ " with host " ++ hostdesc ++ " is taken by another resource"))
         else None
     end) cfgs.
 
@@ -546,13 +547,13 @@ Fixpoint attach_error (k : string) (cs : list change) : option (list change) :=
               else match attach_error k r with Some r' => Some (c :: r') | None => None end
   end.
 
-Definition with_validation_error (invalid : bool) (k : string) (out : state * list change * list problem)
+Definition with_validation_error (invalid : bool) (k u : string) (out : state * list change * list problem)
   : state * list change * list problem :=
   let '(s, cs, ps) := out in
   if invalid then
     match attach_error k cs with
     | Some cs' => (s, cs', ps)
-    | None => (s, cs, ps +++ [mkP k true rejected "invalid"])
+    | None => (s, cs, ps +++ [mkP k u true rejected "invalid"])
     end
   else out.
 
@@ -576,26 +577,26 @@ Definition step (c : cfg) (s : state) (e : event) : state * list change * list p
   | EIng i cls valid =>
       let k := mkey (i_meta i) in
       let s' := set_ings s (if cls && valid then insert k i (ings s) else remove k (ings s)) in
-      with_validation_error (cls && negb valid) (ing_rkey i) (rebuild_hosts c s')
+      with_validation_error (cls && negb valid) (ing_rkey i) (m_uid (i_meta i)) (rebuild_hosts c s')
   | EDelIng k =>
       if mem k (ings s) then rebuild_hosts c (set_ings s (remove k (ings s))) else (s, [], [])
   | EVS v cls valid =>
       let k := mkey (v_meta v) in
       let s' := set_vss s (if cls && valid then insert k v (vss s) else remove k (vss s)) in
-      with_validation_error (cls && negb valid) (vs_rkey v) (rebuild_hosts c s')
+      with_validation_error (cls && negb valid) (vs_rkey v) (m_uid (v_meta v)) (rebuild_hosts c s')
   | EDelVS k =>
       if mem k (vss s) then rebuild_hosts c (set_vss s (remove k (vss s))) else (s, [], [])
   | EVSR r cls valid =>
       let k := mkey (r_meta r) in
       let s' := set_vsrs s (if cls && valid then insert k r (vsrs s) else remove k (vsrs s)) in
       let '(s2, cs, ps) := rebuild_hosts c s' in
-      (s2, cs, if cls && negb valid then ps +++ [mkP (vsr_pkey r) true rejected "invalid"] else ps)
+      (s2, cs, if cls && negb valid then ps +++ [mkP (vsr_pkey r) (m_uid (r_meta r)) true rejected "invalid"] else ps)
   | EDelVSR k =>
       if mem k (vsrs s) then rebuild_hosts c (set_vsrs s (remove k (vsrs s))) else (s, [], [])
   | ETS t cls valid =>
       let k := mkey (t_meta t) in
       let s' := set_tss s (if cls && valid then insert k t (tss s) else remove k (tss s)) in
-      with_validation_error (cls && negb valid) (ts_rkey t) (rebuild_ts c s')
+      with_validation_error (cls && negb valid) (ts_rkey t) (m_uid (t_meta t)) (rebuild_ts c s')
   | EDelTS k =>
       if mem k (tss s) then rebuild_ts c (set_tss s (remove k (tss s))) else (s, [], [])
   | EGC ls _ => rebuild_gc c (set_gc s (Some ls))
